@@ -211,6 +211,17 @@ pub fn check_case(c: &LzmaCase, prop: &str, rep: &mut Report) -> bool {
             vs.push("write returned Ok(0) for non-empty input while decoding was still in progress".into());
         }
     }
+    // the raw decoder object is reusable: every other case is decoded again on an object that first decoded a
+    // stream with matches and an end marker (rep history, state and probabilities all used) and was reset
+    if vs.is_empty() && c.api == "raw" && o.verdict != Verdict::Panic && data.len() % 2 == 0 {
+        let warm_prog = vec![Sym::Lit { b: 1 }, Sym::Lit { b: 2 }, Sym::Lit { b: 3 }, Sym::Match { d: 3, n: 4 }, Sym::Match { d: 2, n: 2 }, Sym::Rep { r: 1, n: 3 }, Sym::Lit { b: 9 }, Sym::Eos];
+        let warm = coding::encode_program(&warm_prog, c.props).payload;
+        let ml = c.memlimit.map(|m| m as usize);
+        let (o2, cons2) = api::raw_lzma_reused(&data, c.props.lc, c.props.lp, c.props.pb, c.dict, c.raw_size, ml, &warm);
+        if o2.verdict != o.verdict || (o2.verdict == Verdict::Ok && (o2.out != o.out || Some(cons2) != o.consumed)) {
+            vs.push(format!("a reset LzmaDecoder that decoded another stream before gives {:?} ({} bytes) where a new one gives {:?} ({} bytes): {}", o2.verdict, o2.out.len(), o.verdict, o.out.len(), o2.msg));
+        }
+    }
     rep.count(&format!("class:{}", e.class));
     if e.v == Exp::Any {
         rep.dontcare += 1;
@@ -606,6 +617,8 @@ pub fn replay_header_export(path: &str, prop: &str, seed: u64, rep: &mut Report)
             "zero" => Some(0),
             "true" => Some(t),
             "truePlus1" => Some(t + 1),
+            "top" => Some(1 << 63),
+            "allButOne" => Some(u64::MAX - 1),
             _ => Some(1 << 40),
         }
     };
@@ -720,7 +733,7 @@ pub fn options_matrix(prop: &str, seed: u64, nprogs: usize, rep: &mut Report) {
             if marker {
                 p2.push(Sym::Eos);
             }
-            let fields: Vec<Option<u64>> = vec![None, Some(t), Some(t + 1), Some(t.saturating_sub(1)), Some(0), Some(1 << 40)];
+            let fields: Vec<Option<u64>> = vec![None, Some(t), Some(t + 1), Some(t.saturating_sub(1)), Some(0), Some(1 << 40), Some(1 << 63), Some(u64::MAX - 1), Some((1 << 32) + t)];
             let ns: Vec<Option<u64>> = vec![None, Some(t), Some(t + 1), Some(t.saturating_sub(1)), Some(0)];
             for (fi, field) in fields.iter().enumerate() {
                 let mut opts: Vec<Opt> = vec![Opt::ReadFromHeader];
